@@ -35,7 +35,16 @@ func run(c *vh.Ctx) error {
 			rp = &r
 		}
 	}
-	runFuzz(c, os.Getenv("C02_ONLY"), rp)
+	if rp == nil && os.Getenv("C02_ONLY") == "" {
+		cp, err := loadCorpus(c.Rng.Fork())
+		if err != nil {
+			return err
+		}
+		runScan(c, cp)
+	}
+	if os.Getenv("C02_NOFUZZ") == "" {
+		runFuzz(c, os.Getenv("C02_ONLY"), rp)
+	}
 	return nil
 }
 
